@@ -24,6 +24,9 @@ type Variant struct {
 	Opts         map[string]bool // extra boolean gqlgen.yml options
 	Race         bool
 	Extra        string // raw yaml appended
+	// CustomRoots renames the root operation types (RootQuery / RootMutation /
+	// RootSubscription + a schema definition): nothing may depend on the default names
+	CustomRoots bool
 }
 
 func (v Variant) ID() string {
@@ -38,7 +41,7 @@ func (v Variant) ID() string {
 func ExecVariants(thorough bool) []Variant {
 	vs := []Variant{
 		{Name: "v0"},
-		{Name: "v1", FollowSchema: true, FuncSyntax: true, WorkerLimit: 2},
+		{Name: "v1", FollowSchema: true, FuncSyntax: true, WorkerLimit: 2, CustomRoots: true},
 		{Name: "v2", WorkerLimit: 1, Opts: map[string]bool{"omit_slice_element_pointers": true, "resolvers_always_return_pointers": true}},
 	}
 	if thorough {
@@ -140,6 +143,16 @@ func BuildProbe(probe string, v Variant) (string, error) {
 		case e.Name() == "main.go.tmpl":
 			mainTmpl = string(b)
 		case strings.HasSuffix(e.Name(), ".graphqls"):
+			if v.CustomRoots {
+				txt := string(b)
+				for _, r := range []string{"Query", "Mutation", "Subscription"} {
+					txt = strings.ReplaceAll(txt, "type "+r+" {", "type Root"+r+" {")
+				}
+				if strings.Contains(string(b), "\ntype Query {") {
+					txt += "\nschema { query: RootQuery mutation: RootMutation subscription: RootSubscription }\n"
+				}
+				b = []byte(txt)
+			}
 			if err := os.WriteFile(filepath.Join(dir, e.Name()), b, 0o644); err != nil {
 				return "", err
 			}
